@@ -243,6 +243,11 @@ def worker(payload):
             for a in range(nt):
                 if subs[a][a] != "1":
                     out["viol"].append({"law": "reflexive", "t": tys[a], "impl": subs[a][a], "scenario": desc})
+                for b in range(nt):
+                    # the subtype test ANSWERS for every pair of documented kinds of types (a class passed as a value
+                    # is looked up as type[C]: a generic alias is a legitimate left-hand side)
+                    if subs[a][b] == "E":
+                        out["viol"].append({"law": "the subtype test raised instead of answering", "t1": tys[a], "t2": tys[b], "scenario": desc})
             for c in range(w.n):
                 row = r["mem"][c]
                 cobj = w.classes[c]
